@@ -1046,7 +1046,15 @@ def summarize(check, tier, seed, records, wall, extra_bounded=None):
         h["obligations"] += len(rec["results"])
         h["discharged"] += sum(1 for r in rec["results"] if r["status"] == "discharged")
         h["secs"] = round(h["secs"] + rec.get("secs", 0), 2)
-    for ref, h in by_h.items():
+    by_b = {}  # bounded / float-sampled contracts (never counted as proved)
+    for rec in records:
+        if rec.get("kind") != "float":
+            continue
+        h = by_b.setdefault(rec["harness"], {"samples": 0, "checks": 0, "secs": 0.0})
+        h["samples"] += 1
+        h["checks"] += len(rec.get("results") or [])
+        h["secs"] = round(h["secs"] + rec.get("secs", 0), 2)
+    for ref, h in list(by_h.items()) + list(by_b.items()):
         try:
             obj = load_harness(ref)
             h["function"] = getattr(obj, "function", "")
@@ -1069,6 +1077,7 @@ def summarize(check, tier, seed, records, wall, extra_bounded=None):
             "checker_cmd": "./vcheck %s --tier %s" % (prop, tier),
             "functions_under_contract": check.functions,
             "contracts": by_h,
+            "bounded_contracts": by_b,
             "equalities_cross_checked_numerically": sum(r.get("crosschecked", 0) for r in records),
             "shapes_run": len(records),
             "sym_tasks": sum(1 for r in records if r.get("kind") != "float"),
